@@ -23,3 +23,18 @@ pub fn block_on<F: Future>(f: F, max_polls: usize) -> Option<F::Output> {
     }
     None
 }
+
+/// same as `block_on`, but the future is polled where the caller created it (no move of the generator state: a
+/// moved generator is a byte-wise copy of a struct with uninitialised parts, after which CBMC treats its concrete
+/// fields — captured lengths, pointers, the state discriminant — as symbolic)
+pub fn block_on_in_place<F: Future>(f: &mut F, max_polls: usize) -> Option<F::Output> {
+    let mut f = unsafe { Pin::new_unchecked(f) };
+    let w = noop_waker();
+    let mut cx = Context::from_waker(&w);
+    let mut i = 0;
+    while i < max_polls {
+        if let Poll::Ready(v) = f.as_mut().poll(&mut cx) { return Some(v); }
+        i += 1;
+    }
+    None
+}
